@@ -28,7 +28,7 @@ TRUSTED_BASE = [
 ]
 MANIFEST = {
     "technique": "Lean 4 proof (induction over token lists; simulation between the parser's frame stack and the audit's block stack) + translator-regenerated tag tables + exhaustive differential correspondence of lexer, parser grammar and audit",
-    "text": "audit_total: for every table and every token list the audit returns (the guarded pop never fails). strict_parse_implies_clean_partial: for a consistent table every token list accepted by the restricted block grammar (= the strict parser's grammar minus two listed behaviours) is audited clean; both generated tables are proved consistent by kernel evaluation; the two excluded behaviours are kernel-checked counterexamples and known findings. unknown_reported / unclosed_reported: unknown names and unbalanced block tags always appear in the report. The model (lexer at tag level, parser grammar, audit) is compared with the real code on every tag sequence up to length 5 (quick) / 6-8 (thorough) over eleven alphabets and on generated templates, in both environments.",
+    "text": "audit_total: for every table and every token list the audit returns (the guarded pop never fails). strict_parse_implies_clean_partial: for a consistent table every token list accepted by the restricted block grammar (= the strict parser's grammar minus two listed behaviours) is audited clean; both generated tables are proved consistent by kernel evaluation; the two excluded behaviours are kernel-checked counterexamples and known findings. lexer_output_shaped + source_strict_parse_implies_clean_partial lift this to sources (the lexer never leaves tag tokens inside a comment). unknown_reported / unknown_end_reported / unclosed_reported / unclosed_reported_count: unknown names and block tags that occur more often than their end tag always appear in the report, for every table and token list. The model (lexer at tag level, parser grammar, audit) is compared with the real code on every tag sequence up to length 5 (quick) / 6-8 (thorough) over eleven alphabets and on generated templates, in both environments.",
     "note": "Trusted: Lean kernel, the hand model of _audit_tags / lexer / parser grammar (validated exhaustively on short sequences, sampled on long ones), the table emitter, the harness. Tag expressions are fixed well-formed strings: the claim is about block structure. Two behaviours of the unchanged tree violate the false-alarm sentence and are listed known findings (break/continue outside a for block; tags inside the region a LAX-mode if/unless skips after an extraneous else).",
 }
 ASSUMPTIONS = [
@@ -403,7 +403,8 @@ def gen_nodes(rng, env, depth, in_for, budget):
             out.append("endtranslate")
         elif b == "comment":
             out.append(b)
-            junk = ["if", "endif", "foo", "else", "endfor", "raw", "doc", "break"]
+            # no raw/doc openers in here: paired with a later endraw/enddoc they would swallow the endcomment
+            junk = ["if", "endif", "foo", "else", "endfor", "endraw", "enddoc", "break"]
             for _ in range(rng.below(4)):
                 if rng.chance(25):
                     out += ["comment", rng.choice(junk), "endcomment"]
